@@ -156,6 +156,18 @@ fn parser_tokens() -> Vec<(Vec<u8>, Option<Rgb>, bool)> {
         v.push((format!("\x1b[1;{};{};{}t", c.0, c.1, c.2).into_bytes(), Some(c), true));
         v.push((format!("\x1b[0;{};{};{}t", c.0, c.1, c.2).into_bytes(), Some(c), false));
     }
+    // the 16 colour SGR codes: cells that use the first palette entries
+    v.push((b"\x1b[0;31m".to_vec(), Some((0xAA, 0, 0)), true));
+    v.push((b"\x1b[0;34m".to_vec(), Some((0, 0, 0xAA)), true));
+    v.push((b"\x1b[0;44m".to_vec(), Some((0, 0, 0xAA)), false));
+    // malformed colour requests: no index, an empty index, an index beyond the table, components beyond 255, a selector that is neither
+    // foreground nor background. They name no palette entry and no colour: the palette and the current colours stay as they are.
+    for t in [
+        "\x1b]4;rgb:12/34/56\x1b\\", "\x1b]4;;rgb:12/34/56\x1b\\", "\x1b]4;rgb:1/2/3\x1b\\", "\x1b]4;99999;rgb:12/34/56\x1b\\", "\x1b]4;1\x1b\\", "\x1b]4;1;rgb:12/34\x1b\\",
+        "\x1b[1;300;256;511t", "\x1b[0;256;0;0t", "\x1b[1;0;0;99999t", "\x1b[2;1;2;3t", "\x1b[9;1;2;3t", "\x1b[38;2;300;0;0m", "\x1b[48;2;0;256;0m", "\x1b[38;5;256m", "\x1b[48;5;99999m",
+    ] {
+        v.push((t.as_bytes().to_vec(), None, false));
+    }
     for n in [0u32, 7, 16, 196, 231, 255] {
         let c = icy_engine::XTERM_256_PALETTE[n as usize].1.get_rgb();
         v.push((format!("\x1b[38;5;{n}m").into_bytes(), Some(c), true));
@@ -175,6 +187,9 @@ fn run_parser_history(toks: &[usize], ctx: &mut Ctx) {
     ctx.count("evaluations", 1);
     for (step, &t) in toks.iter().enumerate() {
         let (bytes, want, is_fg) = &all[t];
+        // (None, false) marks a malformed request
+        let inert = want.is_none() && !*is_fg;
+        let before = (snapshot(&buf.palette), caret.get_attribute().get_foreground(), caret.get_attribute().get_background());
         for b in bytes {
             ctx.count("transitions", 1);
             if let Err(p) = catch(|| parser.print_char(&mut buf, 0, &mut caret, *b as char)) {
@@ -183,6 +198,16 @@ fn run_parser_history(toks: &[usize], ctx: &mut Ctx) {
             }
         }
         let a = caret.get_attribute();
+        if inert {
+            let after = (snapshot(&buf.palette), a.get_foreground(), a.get_background());
+            if before != after {
+                let what = if before.0.len() != after.0.len() { "palette-grew" } else if before.0 != after.0 { "palette-entry-changed" } else { "current-colour-changed" };
+                let changed: Vec<usize> = (0..before.0.len().min(after.0.len())).filter(|i| before.0[*i] != after.0[*i]).collect();
+                ctx.violation(format!("diff:palette:malformed-colour-request:{what}"), json!({"step": step, "sequence": String::from_utf8_lossy(bytes), "palette_len": [before.0.len(), after.0.len()], "changed_entries": changed, "colours": [[before.1, before.2], [after.1, after.2]]}));
+                return;
+            }
+            continue;
+        }
         if want.is_none() {
             let txt = String::from_utf8_lossy(bytes).to_string();
             if let Some(slot) = txt.split(';').nth(1).and_then(|x| x.parse::<u32>().ok()) {
@@ -191,7 +216,8 @@ fn run_parser_history(toks: &[usize], ctx: &mut Ctx) {
             continue;
         }
         let got = if *is_fg { buf.palette.get_rgb(a.get_foreground()) } else { buf.palette.get_rgb(a.get_background()) };
-        if Some(got) != *want {
+        let idx = if *is_fg { a.get_foreground() } else { a.get_background() };
+        if Some(got) != *want && !redefined.contains(&idx) {
             ctx.violation("diff:palette:parser-colour-does-not-resolve", json!({"step": step, "sequence": String::from_utf8_lossy(bytes), "got": got, "want": want}));
         }
         let fg = buf.palette.get_rgb(a.get_foreground());
@@ -221,7 +247,7 @@ fn run_parser_history(toks: &[usize], ctx: &mut Ctx) {
 
 const FORMATS: [(&str, PaletteFormat); 5] = [("hex", PaletteFormat::Hex), ("pal", PaletteFormat::Pal), ("gpl", PaletteFormat::Gpl), ("ice", PaletteFormat::Ice), ("txt", PaletteFormat::Txt)];
 const LEVELS: [u8; 7] = [0, 1, 9, 10, 99, 100, 255];
-const TEXTS: [&str; 6] = ["", "x", "two words", "1 2 3", "#Name: y", "abcdef FF001122"];
+const TEXTS: [&str; 8] = ["", "x", "two words", "1 2 3", "#Name: y", "abcdef FF001122", "Sunset\n20 30 40 is the key colour", "cr\r9 9 9\r\nlf"];
 
 fn file_case(fmt: usize, colors: &[Rgb], title: &str, author: &str, descr: &str, names: bool, ctx: &mut Ctx) {
     let cs: Vec<Color> = colors
@@ -357,7 +383,7 @@ impl Engine for C16 {
                 let all = parser_tokens();
                 json!({"kind": "parser colour history", "sequences": t.iter().map(|i| String::from_utf8_lossy(&all[*i].0).replace('\x1b', "ESC")).collect::<Vec<_>>()})
             }
-            Case::FileOne(f, r) => json!({"kind": "palette file, 1 colour", "format": FORMATS[*f].0, "r": LEVELS[*r as usize], "g,b": "all 7x7 levels", "texts": "all 6x6 title/description combos x 2 authors x names on/off"}),
+            Case::FileOne(f, r) => json!({"kind": "palette file, 1 colour", "format": FORMATS[*f].0, "r": LEVELS[*r as usize], "g,b": "all 7x7 levels", "texts": "all 8x8 title/description combos x 2 authors x names on/off"}),
             Case::FileMany(f, n) => json!({"kind": "palette file, n colours", "format": FORMATS[*f].0, "n": n, "texts": "6 description values x names on/off"}),
             Case::FileAll(f, r) => json!({"kind": "palette file, all colours with this red value (256 palettes of 256)", "format": FORMATS[*f].0, "r": r}),
             Case::SixBit(r) => json!({"kind": "6-bit VGA palette idempotence", "r6": r, "g6,b6": "all 64x64"}),
